@@ -139,3 +139,44 @@ func jsrRouteCand(rt Route, rest string) routeCandidate {
 func jsrRoutesOK(ws *WebService) bool {
 	return forall(0, len(ws.routes), func(k int) bool { return jsrRouteOK(ws.routes[k]) && wfRouteLists(ws.routes[k]) })
 }
+
+// --- which methods are routable at a URL, as the OPTIONS/CORS code computes it (C09, C17) ---
+
+// svcAllows: the service's root expression matches p and one of its routes with
+// this method matches what the root expression leaves over.
+func svcAllows(ws *WebService, p string, method string) bool {
+	return jsrSvcHit(ws, p) && exists(0, len(ws.routes), func(j int) bool {
+		return jsrRouteHit(ws.routes[j], jsrFinal(ws, p)) && ws.routes[j].Method == method
+	})
+}
+
+func jsrContainerOK(c *Container) bool {
+	return forall(0, len(c.webServices), func(i int) bool {
+		return jsrSvcOK(c.webServices[i]) && jsrRoutesOK(c.webServices[i])
+	})
+}
+
+// --- parameter extraction of RouterJSR311 (C04) -------------------------------------
+
+func strMapHas(m map[string]string, k string) bool { _, ok := m[k]; return ok }
+
+// groupBinds: group i of a match (1-based) is bound to a declared variable name.
+func groupBinds(names []string, i int) bool { return 1 <= i && i <= len(names) }
+
+// lastBinding: no later group of the same match is bound to the same name.
+func lastBinding(names []string, n int, i int) bool {
+	return forall(i+1, n, func(i2 int) bool { return !(groupBinds(names, i2) && names[i2-1] == names[i-1]) })
+}
+
+// rootBinds / routeBinds: the name is declared for some group of the respective match.
+func rootBinds(ws *WebService, p string, k string) bool {
+	return exists(1, rxSubN(ws.pathExpr.Matcher, p), func(i int) bool {
+		return groupBinds(ws.pathExpr.VarNames, i) && ws.pathExpr.VarNames[i-1] == k
+	})
+}
+
+func routeBinds(rt *Route, ws *WebService, p string, k string) bool {
+	return exists(1, rxSubN(rt.pathExpr.Matcher, jsrFinal(ws, p)), func(i int) bool {
+		return groupBinds(rt.pathExpr.VarNames, i) && rt.pathExpr.VarNames[i-1] == k
+	})
+}
